@@ -14,6 +14,7 @@ let msg_text (m : emsg) : string = match m with
   | EExpString -> "Expected string"
   | EExpEndTag nm -> "Expected end tag of '" ^ String.concat "" (List.map (fun b -> String.make 1 (Char.chr (int_of_z b land 255))) nm) ^ "'"
   | EExpGt -> "Expected '>'"
+  | EOs t -> String.concat "" (List.map (fun b -> String.make 1 (Char.chr (int_of_z b land 255))) t)
 let hex_of_string (s : string) = if s = "" then "-" else String.concat "" (List.map (fun c -> Printf.sprintf "%02x" (Char.code c)) (List.of_seq (String.to_seq s)))
 
 (* canonical dump; pos: 0 = none, 1 = real, 2 = wildcard *)
@@ -38,7 +39,16 @@ let res_str (pos : int) (r : node res) : string = match r with
   | Fuel -> "! timeout"
 
 (* state: build stack (top first): name, attributes, content in order; and the handle store *)
-type st = { stack : (z list * (z list * z list) list * node list) list; store : node option list; vs : vstate }
+(* hold (spec mode): the slot a kept reference came from, and whether that slot has been read as the source of
+   a copy since (then the block may be shared and the spec says nothing about a write through the reference);
+   unknown: such a write has happened - the value store of the spec no longer tells the values *)
+type st = { stack : (z list * (z list * z list) list * node list) list; store : node option list; hs : hstate;
+            hold : (int * bool) option; unknown : bool }
+
+(* Error::getErrorString() of an open() that fails with ENOENT *)
+let os_text s = List.map (fun c -> z_of_int (Char.code c)) (List.of_seq (String.to_seq s))
+let os_enoent = os_text "No such file or directory"
+let os_eisdir = os_text "Is a directory"                   (* read() on a directory: open succeeds, readAll fails *)
 
 let rec attr_put k v l = match l with
   | [] -> [(k, v)]
@@ -66,6 +76,11 @@ let vop_of toks = match toks with
   | ["vsubmut"; i; k; h] -> Some (VSubMut (nat i, nat k, bytes_of_hex h))
   | ["velcopy"; i; j] -> Some (VElCopy (nat i, nat j))
   | ["vdel"; i] -> Some (VDel (nat i))
+  | _ -> None
+
+let target_int o = int_of_nat (target o)
+let source_of o = match o with
+  | VCopy (_, j) | VAssign (_, j) | VChild (_, j) -> Some (int_of_nat j)
   | _ -> None
 
 let nslots = 6
@@ -105,7 +120,8 @@ let vdump_rc (v : vstate) : string =
 let () =
   let mode = Sys.argv.(1) and file = Sys.argv.(2) in
   let spec = (mode = "spec") in
-  run_cases file (fun _ -> { stack = []; store = []; vs = vinit })
+  let garbage = z_of_int 12345 in
+  run_cases file (fun _ -> { stack = []; store = []; hs = hinit; hold = None; unknown = false })
     (fun s _ toks ->
        match toks with
        | ["parse"; h] ->
@@ -179,11 +195,86 @@ let () =
          s
        | ["vdump"] ->
          (* spec: the value store of XmlSpec.vstep; model: the values the heap denotes | the reference counts *)
-         if spec then emit (vdump_store s.store)
-         else emit (vdump_store (vabs s.vs) ^ " |" ^ vdump_rc s.vs);
+         if spec then emit (if s.unknown then "??*" else vdump_store s.store)
+         else emit (vdump_store (vabs s.hs.hvs) ^ " |" ^ vdump_rc s.hs.hvs);
+         s
+       | ["vhold"; i] ->
+         (* Element& e = slot[i].toElement();  kept *)
+         if spec then
+           (match sget s.store (nat i) with
+            | Some _ -> { s with store = vstep s.store (touch_op s.store (nat i)); hold = Some (int_of_string i, false) }
+            | None -> { s with hold = None })
+         else { s with hs = hstep s.hs (HHold (nat i)) }
+       | ["vwriteheld"; h] ->
+         (* e.type = nm;  through the kept reference.  Spec: while the slot was not copied since, this is `slot i .toElement().type = nm` *)
+         if spec then
+           (match s.hold with
+            | Some (i, false) -> { s with store = vstep s.store (VName (nat_of_int i, bytes_of_hex h)) }
+            | Some (_, true) -> { s with unknown = true }
+            | None -> s)
+         else { s with hs = hstep s.hs (HWriteHeld (bytes_of_hex h)) }
+       | ["fload"; m; h] ->
+         (* first section: the answer is that of parse on the content (theorem xml_load_is_parse_of_file_content) *)
+         (if spec then emit "fload 1 | ??*" else begin
+            let f = FData (bytes_of_hex h) in
+            if m = "p" then
+              (match snd (load_with (new_parser garbage) (current s) f) with
+               | LParsed r -> emit ("fload 1 | " ^ res_str 1 r)
+               | LNotRead -> emit "fload 1 | not-read")
+            else
+              (match static_load garbage (current s) f with
+               | LParsed (Syn (l, c, e)) ->
+                 emit ("fload 1 | serr " ^ hex_of_string (Printf.sprintf "Syntax error at line %s, column %s: %s" (dec_of_z l) (dec_of_z c) (msg_text e)))
+               | LParsed r -> emit ("fload 1 | " ^ res_str 1 r)
+               | LNotRead -> emit "fload 1 | not-read") end);
+         s
+       | ["fmiss"; m; h] ->
+         (* the file does not exist: false, the target is what it was; a Parser keeps the line / column it held *)
+         let tgt = current s in
+         let os_enoent = if m = "d" || m = "D" then os_eisdir else os_enoent in
+         let m = String.lowercase_ascii (if m = "d" then "p" else if m = "D" then "s" else m) in
+         (if spec then emit ((if m = "p" then "fmiss lerr ? ? ? |" else "fmiss lfail ? |") ^ dump_s 1 tgt) else begin
+            if m = "p" then begin
+              let o1 = fst (parse_with (new_parser garbage) Nul (bytes_of_hex h)) in
+              let (o2, r) = load_with o1 tgt (FMissing os_enoent) in
+              let after = (match load_target tgt r with Some n -> dump_s 1 n | None -> " ?") in
+              (match o2.o_err with
+               | Some ((l, c), e) ->
+                 emit (Printf.sprintf "fmiss lerr %s %s %s |%s" (dec_of_z l) (dec_of_z c)
+                         (match e with Some e -> hex_of_string (msg_text e) | None -> "-") after)
+               | None -> emit ("fmiss lerr ? ? ? |" ^ after))       (* after a successful parse the error fields are not modelled *)
+            end else begin
+              let r = static_load garbage tgt (FMissing os_enoent) in
+              let after = (match load_target tgt r with Some n -> dump_s 1 n | None -> " ?") in
+              emit ("fmiss lfail " ^ hx os_enoent ^ " |" ^ after)
+            end end);
+         s
+       | ["fsave"; w] ->
+         (if spec then emit "??*" else
+            match save_file (current s) (w = "1") with
+            | (true, Some content) -> emit ("fsave 1 " ^ hx content)
+            | (_, _) -> emit "fsave 0 -");
+         s
+       | ["fsl"] ->
+         let e = current s in
+         (if spec then (if wf_tree e then emit ("fsl ok" ^ dump_s 2 e) else emit "??*")
+          else
+            match save_file e true with
+            | (_, Some content) ->
+              (match snd (load_with (new_parser garbage) e (FData content)) with
+               | LParsed r -> emit ("fsl " ^ res_str 1 r)
+               | LNotRead -> emit "fsl not-read")
+            | _ -> emit "fsl save-failed");
          s
        | _ ->
          (match vop_of toks with
-          | Some o -> if spec then { s with store = vstep s.store o } else { s with vs = mstep s.vs o }
+          | Some o ->
+            if spec then begin
+              let hold = (match s.hold with
+                  | Some (i, _) when target_int o = i -> None
+                  | Some (i, _) when source_of o = Some i -> Some (i, true)
+                  | h -> h) in
+              { s with store = vstep s.store o; hold = hold }
+            end else { s with hs = hstep s.hs (HOp o) }
           | None -> failwith ("bad op: " ^ String.concat " " toks)))
     (fun _ -> ())
